@@ -35,7 +35,7 @@ def register(ix):
                      modifies=["value[1]"]),
             Contract(VA, "Variable.__call__", name="Variable.__call__[bare data]", dict_model="Val",
                      params={"self": "Self[Variable]", "value": "V"}, result="Tuple[V,Dict]",
-                     requires=["not isinstance(value, tuple)"],
+                     requires=["not v_has_context(value)"],
                      ensures=["result[0] == el_call(self.getter, value)",
                               FRAME.format(new="result[1]", old="emptydict()"),
                               "self.var_context == old(self.var_context)"]),
